@@ -1,11 +1,11 @@
 # table consumed by tools_manifest.py:  add(id, level category, level text, trusted base, technique, DESIGN.md section)
 add("C01", "exploration",
-    "Generated (document x configuration x cut-offset) search plus complete enumeration of all <=3-line (thorough: <=4-line) documents over a 38-shape line alphabet; any exception other than the documented ones, or exceeding a deterministic call budget, is a violation. Absence is not proved; the enumerated sub-space is covered completely.",
+    "Generated (document x configuration x cut-offset) search plus complete enumeration of all <=3-line (thorough: <=4-line) documents over a 40-shape line alphabet, of all <=4-token (thorough 5) strings over a 24-token inline alphabet and all <=3-token strings over a 24-token typographic alphabet, the C20 families at moderate sizes under a deterministic call budget; any exception other than the documented ones, or exceeding a deterministic call budget, is a violation. Absence is not proved; the enumerated sub-space is covered completely.",
     "Trusts the generators' reach (class histogram in evidence), a test-double linkifier, and CPython itself; hangs are decided by a deterministic call budget.",
     "property-based testing (Hypothesis, constructive Markdown grammar + corpus mutation) + bounded-exhaustive enumeration; oracle: totality (no exception / call budget)",
     "DESIGN.md section 4, C01")
 add("C02", "exploration",
-    "Generated (document x configuration) search; every stream returned by parse and parseInline is checked, recursively through inline and image children, against a validity predicate (bracket discipline with kind/tag/markup match, level == depth, block flags, children placement, no adjacent text, closed token vocabulary) and fed to SyntaxTreeNode.",
+    "Generated (document x configuration) search; every stream returned by parse and parseInline is checked, recursively through inline and image children, against a validity predicate (bracket discipline with kind/tag/markup match, level == depth, block flags, children placement, no adjacent text, closed token vocabulary) and fed to SyntaxTreeNode; plus complete enumeration of all <=4-token (thorough 5) strings over an 18-token inline alphabet and the C20 catalogue families at two sizes. Known finding D12 (tree RecursionError on several-hundred-level emphasis) is reported as KNOWN-FINDING.",
     "Trusts the oracle's reading of the statement (parseInline's synthetic wrapper token is exempt from the block flag); a test-double linkifier.",
     "property-based testing (Hypothesis; inline-rich constructive generators incl. dense delimiter/bracket nests); oracle: validity predicate over the token stream + tree construction",
     "DESIGN.md section 4, C02")
@@ -15,7 +15,7 @@ add("C03", "exploration",
     "property-based testing (Hypothesis; documents with tabs, CR/CRLF, NUL, truncation); oracle: geometric validity predicate on maps + coverage",
     "DESIGN.md section 4, C03")
 add("C04", "exploration",
-    "Generated (document x configuration with html off) search incl. payload templates aimed at every output sink; the rendered output of render and renderInline must be accepted by a strict lexer/parser of the renderer's own output language (fixed elements, per-element attributes, escaped text and values, void spelling per xhtmlOut, balanced nesting).",
+    "Generated (document x configuration with html off) search incl. payload templates aimed at every output sink; the rendered output of render and renderInline must be accepted by a strict lexer/parser of the renderer's own output language (fixed elements, per-element attributes, escaped text and values, void spelling per xhtmlOut, balanced nesting); the C20 catalogue families at two sizes are checked too.",
     "Default renderer, no highlight callback; test-double linkifier; the core 'inline' step is additionally switched off in a small share of cases (raw content then reaches the renderer).",
     "property-based testing (Hypothesis; sink-directed payload templates + general generators); oracle: strict grammar of the output language",
     "DESIGN.md section 4, C04")
@@ -45,23 +45,23 @@ add("C09", "exploration",
     "property-based testing (Hypothesis); oracle: explicit expected output (reference model of literal text)",
     "DESIGN.md section 4, C09")
 add("C10", "exploration",
-    "Generated (document x configuration x option values) search with four clauses: token kinds present must have an enabled producer under an independent rule->kind table (also for instances reconfigured after use); table/strikethrough on == off for documents without their trigger; inline_definitions/store_labels change nothing but definition tokens/label metadata (tokens, env, HTML modulo line breaks after tags); constructor, item and attribute option routes are indistinguishable.",
+    "Generated (document x configuration x option values) search with four clauses: token kinds present must have an enabled producer under an independent rule->kind table (also for instances reconfigured after use); table/strikethrough on == off for documents without their trigger; inline_definitions/store_labels change nothing but definition tokens/label metadata (tokens, env, HTML modulo line breaks after tags); constructor, item and attribute option routes are indistinguishable; an instance configured after use behaves like one configured at construction; rule switches mixed with ignored unknown names still switch the known ones.",
     "The active rule set is modelled by the harness from preset tables + enable/disable lists; attribute route only for options with a property on OptionsDict.",
     "property-based testing (Hypothesis); oracle: reachability table (reference model) + differential relations (rule on/off, option on/off, three option routes)",
     "DESIGN.md section 4, C10")
 add("C11", "exploration",
-    "Generated operation histories (shrunk as one value) on a bare Ruler and on the MarkdownIt facade, executed against an explicit reference model (ordered rule records, first-match lookup): reported sets are compared with the model after every step, the applied function lists of every chain at every observation, raising calls may leave either documented state; on the facade the parse of the live instance must equal that of a fresh instance carrying exactly the reported rules.",
+    "Generated operation histories (shrunk as one value) on a bare Ruler and on the MarkdownIt facade, executed against an explicit reference model (ordered rule records, first-match lookup): reported sets are compared with the model after every step, the applied function lists of every chain at every observation, raising calls may leave either documented state; on the facade the parse of the live instance must equal that of a fresh instance carrying exactly the reported rules; probe rules observe that each rule is consulted exactly in the terminator contexts of its alt chains and that every enabled rule of core/inline/inline2 runs once per pass. A Hypothesis RuleBasedStateMachine over the same executor is a second engine.",
     "Histories are data interpreted by a model executor (state-machine testing with replayable histories); the fallback rules paragraph/text stay enabled on the facade because a parse without them does not terminate (outside the supported configurations).",
     "stateful property-based testing (Hypothesis-generated histories vs. reference model); oracle: reference model + applied==reported differential",
     "DESIGN.md section 4, C11")
 add("C12", "exploration",
-    "Generated histories over up to three live instances (construction from names, caller-owned preset dicts and shared option mappings; calls with env omitted/fresh/shared; rule, option, render-rule and reset_rules operations); every probe compares the live instance with a fresh instance rebuilt from that instance's own configuration recipe (tokens, HTML, env; env omitted vs {}), and module presets / caller-owned mappings with their snapshots.",
+    "Generated histories over up to three live instances (construction from names, caller-owned preset dicts and shared option mappings; calls with env omitted/fresh/shared; rule, option, render-rule and reset_rules operations); every probe compares the live instance with a fresh instance rebuilt from that instance's own configuration recipe (tokens, HTML, env; env omitted vs {}), and module presets / caller-owned mappings with their snapshots; around every configuration operation another instance is probed before and after, and brand-new instances are compared before and after the history.",
     "Render rules come from a small registry of pure functions; recipes contain configuration operations only.",
     "stateful property-based testing (Hypothesis-generated multi-instance histories); oracle: configuration-recipe replay on a fresh instance (differential) + snapshot invariants",
     "DESIGN.md section 4, C12")
 add("C13", "exploration",
-    "The harness owns the schedule: threads are serialised by a deterministic scheduler on sys.monitoring INSTRUCTION events of library code, and a schedule (list of quanta) is a reproducible, generated value. Systematic single-switch sweeps (every pre-emption point inside rule-management code at the stated stride, uniform grid elsewhere), Hypothesis-generated multi-switch plans for 2 (thorough 3) threads, and nested re-entrant calls from plugin rules of every chain and from a render rule at every k-th invocation; every call must return exactly its solo result within a deterministic instruction budget.",
-    "Pre-emption between byte-codes of markdown_it code only; process-global lazies warmed; all single-switch points only at the stated stride/grid, multi-switch schedules sampled.",
+    "The harness owns the schedule: threads are serialised by a deterministic scheduler on sys.monitoring INSTRUCTION events of library code, and a schedule (list of quanta) is a reproducible, generated value. Systematic single-switch sweeps (every pre-emption point inside rule-management code at the stated stride, uniform grid elsewhere), round-robin schedules with fixed quanta, Hypothesis-generated multi-switch plans for 2 (thorough 3) threads, and nested re-entrant calls from plugin rules of every chain and from a render rule at every k-th invocation; every call must return exactly its solo result within a deterministic instruction budget.",
+    "Pre-emption between byte-codes of markdown_it code only; the exact sweep focus is rule-management code and code writing module globals; process-global lazies warmed; all single-switch points only at the stated stride/grid, multi-switch schedules sampled.",
     "schedule-owning property-based testing (deterministic byte-code scheduler + systematic single-switch sweep + generated multi-switch plans + re-entrancy injection); oracle: interleaved == solo",
     "DESIGN.md section 4, C13")
 add("C14", "fault_enumeration",
@@ -95,7 +95,7 @@ add("C19", "exploration",
     "property-based testing (Hypothesis); oracle: differential typographer on/off with structural invariants + metamorphic escape==entity relation",
     "DESIGN.md section 4, C19")
 add("C20", "exploration",
-    "A catalogue of 115 scalable pathological input families x 3 presets, measured with a deterministic cost (Python-level calls into markdown_it during render, sys.setprofile) at lengths L, 2L, 4L (and 8L, 16L when the first three are ambiguous): every doubling must cost at most 1.25 x the length ratio and the cost per character must not drift; nesting families must show no growth of cost per character or of Python call depth beyond maxNesting; plus Hypothesis-generated families prefix.unit^n.middle.unit'^n.suffix. The known quadratic family (consecutive reference definitions) is reported as KNOWN-FINDING and excluded by construction from generated families.",
+    "A catalogue of about 125 scalable pathological input families (incl. two-part families and the sparse square table) x 3 presets, measured with a deterministic cost (Python-level calls into markdown_it during render, sys.setprofile) at lengths L, 2L, 4L (and 8L, 16L when the first three are ambiguous): every doubling must cost at most 1.25 x the length ratio and the cost per character must not drift; nesting families must show no growth of cost per character or of Python call depth beyond maxNesting; plus Hypothesis-generated families prefix.unit^n.middle.unit'^n.suffix. The known quadratic family (consecutive reference definitions) is reported as KNOWN-FINDING and excluded by construction from generated families.",
     "Cost inside C primitives is invisible to the measure; inputs are bounded by L (quick 500, thorough up to 25000 characters); thresholds as stated in the evidence rule.",
     "deterministic cost measurement over a fixed catalogue + Hypothesis-generated repeat-pattern families; oracle: linear-growth predicate on call counts",
     "DESIGN.md section 4, C20")
